@@ -1321,6 +1321,7 @@ func poolGet(x *Exec, fn *ssa.Function, a []Value) Value {
 	arr := items.Val.(*ArrV)
 	x.syncEvent("pool-get", p.Obj.ID, p.Obj)
 	if n := len(arr.Elems); n > 0 {
+		x.usedNondet = true
 		if x.branch(x.fresh("pool_reuse", 0)) {
 			v := arr.Elems[n-1]
 			arr.Elems = arr.Elems[:n-1]
